@@ -159,7 +159,7 @@ class RealDB:
 class Sim:
     # pylint: disable=too-many-instance-attributes,too-many-public-methods
     def __init__(self, spec, targets, bumped=(), auto_workers=0, rev='rev-0',
-                 clock=None, real_store=False):
+                 clock=None, real_store=False, timers=False):
         import dawgie
         import dawgie.context
         import dawgie.pl.farm as farm
@@ -184,6 +184,8 @@ class Sim:
         # purge while a unit was executing; cleared when none is in flight
         self.lost_keys = set()
         self.reply_job_queued = True
+        self.timer_fired = []
+        self.boot_fired = []
         reset_world()
         rig.install()
         dawgie.context.git_rev = rev
@@ -203,6 +205,19 @@ class Sim:
             self.db.target_list = list(targets)
             self.root = world.fresh_dir('sim')
             dawgie.context.data_dbs = self.root
+        self.timers = timers
+        self._real_call_later = None
+        if timers and clock is None:
+            # Friday noon: weekly / monthly / dated events of the generated
+            # engines come due within the histories' clock advances
+            clock = world.TClock(
+                datetime.datetime(2024, 3, 1, 12, 0, 0, tzinfo=datetime.UTC)
+            )
+        if timers:
+            import twisted.internet.reactor as reactor
+
+            self._real_call_later = reactor.callLater
+            reactor.callLater = clock.tc.callLater
         self.clock = clock or world.Clock(
             datetime.datetime(2024, 3, 1, 12, 0, 0, tzinfo=datetime.UTC)
         )
@@ -214,6 +229,10 @@ class Sim:
         self.event_runid = {}  # tag -> run ID carried by the last event
         self.rebuild(bumped)
         self.log.append({'op': ['build', sorted(bumped)], 'step': 0})
+        if timers:
+            self._spy_defer()
+            sched.periodics(self.eng.factories[dawgie.Factories.events])
+            self.boot_fired = [t for _s, t in self.timer_fired]
 
     def rebuild(self, bumped=()):
         '''what FSM._pipeline does: build the schedule from the factories'''
@@ -330,9 +349,42 @@ class Sim:
         farm.log.exception = exc
         farm.log.error = err
 
+    def _spy_defer(self):
+        '''a timer event that comes due is an external event like a request:
+        it justifies a run of the node for every target it queued'''
+        from dawgie.pl.jobinfo import State
+
+        sched = self.sched
+        real_defer = sched.defer
+        self._real['defer'] = real_defer
+        sim = self
+
+        def defer():
+            nodes = list({id(n): n for n in sched.per}.values())
+            before = {id(n): (n.get('status'), set(n.get('todo')))
+                      for n in nodes}
+            real_defer()
+            for n in nodes:
+                st0, todo0 = before[id(n)]
+                if n.get('status') == State.waiting and st0 not in (
+                    State.waiting, State.running
+                ):
+                    sim.event_runid[n.tag] = None
+                    for t in set(n.get('todo')) | todo0:
+                        sim.flags[(n.tag, t)] = True
+                    sim.timer_fired.append((sim.step, n.tag))
+
+        sched.defer = defer
+
     def close(self):
         farm, sched, chron = self.farm, self.sched, self.chron
         r = self._real
+        if 'defer' in r:
+            sched.defer = r['defer']
+        if self._real_call_later is not None:
+            import twisted.internet.reactor as reactor
+
+            reactor.callLater = self._real_call_later
         farm._put = r['put']
         farm.Hand.do = r['do']
         sched.complete = r['complete']
@@ -693,6 +745,17 @@ class Sim:
                 ev['unit'], ev['newset'] = r
                 ev['job_queued'] = self.reply_job_queued
                 ev['outcome'] = OUTCOMES[op[2] % 3]
+        elif kind == 'timer':
+            # let time pass: to the next armed timer (op[1] == 0) or by a
+            # fixed amount; due timers run schedule.defer
+            if self.timers:
+                calls = sorted(self.clock.tc.getDelayedCalls(),
+                               key=lambda c: c.getTime())
+                if op[1] == 0 and calls:
+                    dt = max(0.0, calls[0].getTime() - self.clock.tc.seconds())
+                    self.clock.advance(dt + 1)
+                else:
+                    self.clock.advance([60, 3600, 86400, 7 * 86400][op[1] % 4])
         elif kind == 'exec':
             r = self.execute(op[1])
             if r is not None:
@@ -717,6 +780,8 @@ class Sim:
             raise core.HarnessError(f'unknown op {op}')
         ev['after'] = self.snapshot()
         ev['calls'] = self.calls
+        ev['timer_fired'] = [t for st_, t in self.timer_fired
+                             if st_ == self.step]
         ev['errors'] = self.errors[nerr:]
         # justification bookkeeping (C02 minimality)
         if kind in ('rep', 'exec') and 'unit' in ev:
@@ -811,7 +876,7 @@ def op_strategy(weights=None):
         'tick': 2, 'rep': 2, 'req': 2, 'join': 1, 'leave': 0, 'tgt': 1,
         'pause': 0, 'active': 0, 'rereq': 1, 'auto': 9,
         'auto2': 8, 'requp': 1, 'status': 0, 'reload': 0, 'archived': 0,
-        'joinx': 0,
+        'joinx': 0, 'timer': 0,
     }
     w.update(weights or {})
     small = st.integers(0, 7)
@@ -848,6 +913,9 @@ def op_strategy(weights=None):
                           st.integers(0, 5)).map(list)] * w['status']
     choices += [st.tuples(st.just('reload'), small).map(list)] * w['reload']
     choices += [st.just(['archived'])] * w['archived']
+    choices += [st.tuples(st.just('timer'),
+                          st.sampled_from([0, 0, 0, 0, 1, 2, 3])).map(list)
+                ] * w['timer']
     choices += [st.tuples(st.just('tgt'), small).map(list)] * w['tgt']
     choices += [st.sampled_from([['pause'], ['unpause']])] * w['pause']
     choices += [st.tuples(st.just('active'), st.integers(0, 1)).map(list)] * w['active']
@@ -870,6 +938,16 @@ def histories(draw, weights=None, max_ops=60, min_ops=4, spec_kw=None,
     )
     if empty_targets and targets == [] and draw(st.integers(0, 3)):
         targets = ['T1']
+    if kw.get('events') and not any(a['events'] for a in spec['algs']):
+        i = draw(st.integers(0, len(spec['algs']) - 1))
+        spec['algs'][i]['events'] = draw(
+            st.lists(engines._moment, min_size=1, max_size=2))
+    if kw.get('events') and spec['style'] == 'registry':
+        # the events factory must exist for a package that declares events
+        for pi in {a['pkg'] for a in spec['algs'] if a['events']}:
+            if 'events' not in spec['placeholders'][pi]:
+                spec['placeholders'][pi] = sorted(
+                    spec['placeholders'][pi] + ['events'])
     bumped = draw(st.lists(st.integers(0, 7), max_size=3))
     op = op_strategy(weights)
     mid = max(min_ops + 1, max_ops // 3)
@@ -882,13 +960,16 @@ def histories(draw, weights=None, max_ops=60, min_ops=4, spec_kw=None,
     )
     if draw(st.integers(0, 3)) == 0:
         ops = [['reqall']] + ops
-    return {
+    case = {
         'spec': spec,
         'targets': targets,
         'bumped': bumped,
         'workers': draw(st.sampled_from([0, 1, 2, 3, 3, 4, 4])),
         'ops': ops,
     }
+    if kw.get('events'):
+        case['timers'] = True
+    return case
 
 
 def run_history(case, on_event, at_end=None, pid=None, setup=None):
@@ -897,10 +978,13 @@ def run_history(case, on_event, at_end=None, pid=None, setup=None):
     further (its consequences would only be echoes of that finding).'''
     out = core.Outcome()
     sim = Sim(case['spec'], case['targets'], case.get('bumped', ()),
-              auto_workers=case.get('workers', 0))
+              auto_workers=case.get('workers', 0),
+              timers=bool(case.get('timers')))
     try:
         if setup is not None:
             setup(sim)
+        if sim.boot_fired:
+            out.label('timer-event-at-boot')
         if sim.missing:
             out.fail(
                 'graph/algorithm-missing-from-task-tree',
@@ -910,6 +994,8 @@ def run_history(case, on_event, at_end=None, pid=None, setup=None):
             return out
         for op in case['ops']:
             ev = sim.do(op)
+            if ev.get('timer_fired'):
+                out.label('timer-event-came-due')
             on_event(sim, ev, out)
             if out.failures:
                 if pid and all(
